@@ -24,10 +24,12 @@ type Sess struct {
 }
 
 type SessOpts struct {
-	Auto     bool
-	FailPage bool
-	NoVer    bool
-	HostMode bool
+	NoIntegrity bool
+	MetaLimit   int // 0 = default
+	Auto        bool
+	FailPage    bool
+	NoVer       bool
+	HostMode    bool
 }
 
 func newSess(prop, kind string, o SessOpts) *Sess {
@@ -41,6 +43,12 @@ func newSess(prop, kind string, o SessOpts) *Sess {
 	}
 	if o.NoVer {
 		opts = append(opts, gofakes3.WithoutVersioning())
+	}
+	if o.NoIntegrity {
+		opts = append(opts, gofakes3.WithIntegrityCheck(false))
+	}
+	if o.MetaLimit != 0 {
+		opts = append(opts, gofakes3.WithMetadataSizeLimit(o.MetaLimit))
 	}
 	s := &Sess{prop: prop, kind: kind, st: st, h: newServer(st.Backend, opts...), opts: o}
 	versioned := kind == "mem" && !o.NoVer
